@@ -28,6 +28,8 @@ type selModel struct {
 	selected *ssa.Phi   // loop-carried "selected so far"
 	induct   *ssa.Phi   // loop index
 	incr     ssa.Value  // the incremented index of a range loop
+	selCell  *ssa.Alloc // "selected so far" kept in a cell (a struct variable) instead of a merged value
+	flags    map[ssa.Value]bool // loop-carried "something is selected" flags
 	preds    map[*ssa.Function]bool
 	mode     string
 	modeVals map[ssa.Value]bool
@@ -40,7 +42,7 @@ func (m *selModel) isCandidateDesignator(v ssa.Value, phis map[*ssa.Phi]ssa.Valu
 	if depth > 6 {
 		return false, false
 	}
-	if v == ssa.Value(m.selected) {
+	if m.selected != nil && v == ssa.Value(m.selected) {
 		return false, true // unchanged
 	}
 	if v == ssa.Value(m.induct) || (m.incr != nil && v == m.incr) {
@@ -86,6 +88,9 @@ func (m *selModel) evalCond(cond ssa.Value, rels map[string]int, phis map[*ssa.P
 			return r != neg, okr
 		}
 	}
+	if m.flags[cond] {
+		return !neg, true // a selection exists
+	}
 	if a := m.cm.eval(cond, rels, phis, 0); a.kind == 1 {
 		return a.b != neg, true
 	}
@@ -98,7 +103,7 @@ func (m *selModel) evalCond(cond ssa.Value, rels map[string]int, phis map[*ssa.P
 	case *ssa.BinOp:
 		// nothing selected yet? — taken as false (a selection exists)
 		for _, pair := range [][2]ssa.Value{{x.X, x.Y}, {x.Y, x.X}} {
-			if stripConv(pair[0]) == ssa.Value(m.selected) {
+			if m.selected != nil && stripConv(pair[0]) == ssa.Value(m.selected) {
 				if isNilConst(pair[1]) {
 					return (x.Op == token.NEQ) != neg, true
 				}
@@ -233,6 +238,7 @@ func (m *selModel) verdict(rels map[string]int) (bool, bool) {
 		return false, false
 	}
 	prev := m.header
+	replaced := false
 	for steps := 0; steps < 400; steps++ {
 		idx := -1
 		for i, p := range b.Preds {
@@ -242,11 +248,25 @@ func (m *selModel) verdict(rels map[string]int) (bool, bool) {
 		}
 		if b == m.header {
 			// back edge: what flows into the selected variable?
+			if m.selCell != nil {
+				return replaced, true
+			}
 			if idx < 0 {
 				return false, false
 			}
 			rep, ok := m.isCandidateDesignator(m.selected.Edges[idx], phis, 0)
 			return rep, ok
+		}
+		if m.selCell != nil {
+			for _, ins := range b.Instrs {
+				if st, ok := ins.(*ssa.Store); ok && st.Addr == ssa.Value(m.selCell) {
+					if sd, f := m.cm.side(st.Val, 0); sd == 1 && f == "" {
+						replaced = true
+					} else {
+						return false, false
+					}
+				}
+			}
 		}
 		if !m.body[b] {
 			return false, false
@@ -304,7 +324,7 @@ func checkSelectionByEvaluation(c *Ctx, rule, sname string, sel *ssa.Function, p
 	if header == nil {
 		return false
 	}
-	m := &selModel{fn: v, header: header, body: loopBody(header), preds: map[*ssa.Function]bool{}}
+	m := &selModel{fn: v, header: header, body: loopBody(header), preds: map[*ssa.Function]bool{}, flags: map[ssa.Value]bool{}}
 	for f := range predSet {
 		m.preds[f] = true
 	}
@@ -325,17 +345,51 @@ func checkSelectionByEvaluation(c *Ctx, rule, sname string, sel *ssa.Function, p
 			continue
 		}
 		_ = ins
-		switch phi.Type().Underlying().(type) {
-		case *types.Basic, *types.Pointer:
-			if m.selected == nil {
+		switch t := phi.Type().Underlying().(type) {
+		case *types.Basic:
+			if t.Info()&types.IsBoolean != 0 {
+				m.flags[phi] = true
+			} else if m.selected == nil {
 				m.selected = phi
 			}
+		case *types.Pointer, *types.Struct:
+			m.selected = phi
 		}
 	}
-	if m.induct == nil || m.selected == nil {
+	if m.induct == nil {
 		return false
 	}
-	m.cm = &cmpModel{fn: v, sideOf: map[ssa.Value]int{m.induct: 1, m.selected: 2}}
+	if m.selected == nil {
+		// "selected so far" as a struct variable: a cell defined before the loop and stored in its body
+		for _, b := range v.Blocks {
+			if m.body[b] {
+				continue
+			}
+			for _, ins := range b.Instrs {
+				a, ok := ins.(*ssa.Alloc)
+				if !ok {
+					continue
+				}
+				if _, isStruct := a.Type().Underlying().(*types.Pointer).Elem().Underlying().(*types.Struct); !isStruct {
+					continue
+				}
+				for _, ref := range *a.Referrers() {
+					if st, ok := ref.(*ssa.Store); ok && st.Addr == ssa.Value(a) && m.body[st.Block()] {
+						m.selCell = a
+					}
+				}
+			}
+		}
+		if m.selCell == nil {
+			return false
+		}
+	}
+	m.cm = &cmpModel{fn: v, sideOf: map[ssa.Value]int{m.induct: 1}}
+	if m.selected != nil {
+		m.cm.sideOf[m.selected] = 2
+	} else {
+		m.cm.sideOf[m.selCell] = 2
+	}
 	// a range loop indexes with the incremented value (t = φ+1 computed in the header)
 	for _, e := range m.induct.Edges {
 		if bo, ok := e.(*ssa.BinOp); ok && bo.Op == token.ADD && bo.X == ssa.Value(m.induct) && bo.Block() == header {
